@@ -21,7 +21,8 @@ CREDS = [
     ("Bearer", "Bearer abc", "n,a=x"),  # credentials that look like pieces of the mechanisms' own framing
     ("user", "auth=Bearer x\x01", ""),
     ("user", "pass", "user"),  # authorisation id given and equal to the login: still an authorisation id
-    ("alice@ref", "pw", ""), ("bob@other.example", "pw", "carol@ref"),  # logins / authzids ending in "@" + the realm a DIGEST-MD5 challenge offers
+    ("alice@ref", "pw", ""), ("bob@other.example", "pw", "carol@ref"),
+    ("\ufeffuser", "\ufeffpw", "\ufeffz"),  # a leading U+FEFF is a character of the credential, not a signature  # logins / authzids ending in "@" + the realm a DIGEST-MD5 challenge offers
 ]
 
 
